@@ -24,6 +24,7 @@ def main():
   pid = args.pid.upper()
   mod = importlib.import_module('props.' + pid.lower())
   ck = core.Check(pid, tier, seed)
+  ck.debug_no_lean = bool(args.no_lean)
   if args.replay:
     with open(args.replay) as f:
       rep = json.load(f)
